@@ -181,6 +181,78 @@ def run(ck):
         want.append(" / ".join(ws))
     om = core.run_impl("prep", multi)
     ck.compare("multi-file", multi, want, om, classify=lambda c, mo, oo: ("leak", {}))
+    # 6. doc comments cut by conditional regions: what is reported about the surviving comment lines keeps their lines and columns
+    from ..front_common import parse_diags
+    dcases = []
+    for _ in range(300 if ck.tier == "quick" else 3000):
+        lines_, expect, k, depth = ["module M"], [], 0, 0
+        defined = rng.random() < 0.5
+        host = rng.choice(["struct S {}", "interface I {}", "struct S {\n    %s\n    a: int32\n}", "interface I {\n    %s\n    op()\n}"])
+        body, live = [], True
+        for _ in range(rng.choice([2, 3, 4, 6])):
+            r = rng.random()
+            if r < 0.25 and depth == 0:
+                body.append(rng.choice(["#if X", "#if !X", "  #if X // c", "#if X || Y"]))
+                live = defined if "!" not in body[-1] else not defined
+                depth = 1
+            elif r < 0.4 and depth >= 1:
+                body.append("#endif" if depth == 2 else rng.choice(["#else", "#endif"]))
+                if body[-1] == "#else":
+                    live, depth = not live, 2          # after #else only #endif can follow
+                else:
+                    depth, live = 0, True
+            else:
+                k += 1
+                ind = rng.choice(["", "  ", "\t"])
+                body.append("%s/// %s{@link Missing%d} é" % (ind, rng.choice(["", "see ", "ünï ", "a b c "]), k))
+        if depth >= 1:
+            body.append("#endif")
+        dcases.append((host, body, defined))
+    dl_lines, dmeta = [], []
+    for host, body, defined in dcases:
+        if "%s" in host:
+            pre, post = host.split("%s")
+            text_lines = ["module M", pre.split("\n")[0]] + body + post.split("\n")[1:]
+        else:
+            text_lines = ["module M"] + body + [host]
+        text = "\n".join(text_lines) + "\n"
+        # which comment lines survive: evaluate the regions as the property says
+        live, want, stack = True, [], []
+        for row, l in enumerate(text_lines, 1):
+            t = l.strip()
+            if t.startswith("#if"):
+                cond = t[3:].split("//")[0].strip()
+                val = {"X": defined, "!X": not defined, "X || Y": defined}[cond]
+                stack.append((live, val))
+                live = live and val
+            elif t.startswith("#else"):
+                outer, val = stack[-1]
+                live = outer and not val
+            elif t.startswith("#endif"):
+                live = stack.pop()[0]
+            elif live and "{@link Missing" in l:
+                name = l[l.index("Missing"):].split("}")[0]
+                want.append((row, l.index("Missing") + 1, name))
+        dl_lines.append("diags %s %s" % ("D:X" if defined else "-", hx(text)))
+        dmeta.append((text, want))
+    od = core.run_impl("diags", dl_lines, chunk=200, timeout=120)
+    ck.stream("doc-comments-across-directives", description="doc comments whose lines are separated by #if/#else/#endif regions (kept or removed), with a broken link on every comment line: "
+              "every link of a surviving line is reported once, at the line and column where it is written (non-ASCII text and tabs before it); links of removed lines are not reported")
+    for (text, want), oo, line in zip(dmeta, od, dl_lines):
+        ck.count("doc-comments-across-directives", line, kind="%d links" % len(want))
+        dl = parse_diags(oo)
+        if dl is None:
+            ck.violation("doc-comments-across-directives", "crash", text, "diagnostics", oo[:200])
+            continue
+        got = []
+        for d in dl:
+            if d["code"] == "BrokenDocLink" and d["span"] != "-":
+                a = d["span"].rsplit("-", 1)[0].split(":")
+                nm = d["msg"].split("'")[1] if "'" in d["msg"] else "?"
+                got.append((int(a[-2]), int(a[-1]), nm))
+        other = [d for d in dl if d["code"] != "BrokenDocLink"]
+        if sorted(got) != sorted(want) or other:
+            ck.violation("doc-comments-across-directives", "comment-line-moved", text, repr(sorted(want)), repr(sorted(got)) + (" and %s %s" % (other[0]["code"], other[0]["msg"]) if other else ""))
     ck.extra["exhaustive"] = True
     ck.extra["rule"] = ("bounded-exhaustive: all sequences of <= %d lines over %d line forms x all 8 subsets of {A,B,C}, all sequences of %d lines x %d subsets; all sequences of <= 3 lines containing a malformed form; "
                         "%d expressions (grammar-enumerated, depth <= %d) x all 8 valuations; %d random files (nesting <= 5, indentation before '#', trailing comments, CRLF, blank lines); multi-file leakage. "
